@@ -312,11 +312,7 @@ func (x *Exec) intrinsic(st *State, fr *Frame, full string, callee *ssa.Function
 		return intrRes{took: took}, true
 	case "(*golang.org/x/sync/errgroup.Group).Wait":
 		g := args[0]
-		key := "eg:" + g.Ptr.Root
-		e, ok := st.ghost[key]
-		if !ok {
-			e = "ErrNil"
-		}
+		e := sx("select", st.heap("G_egerr", "(Array Int Err)"), g.Ptr.Root)
 		return intrRes{v: Val{K: KErr, T: e, Typ: rt()}}, true
 	}
 	return intrRes{}, false
